@@ -1,12 +1,440 @@
 package tmclient
 
 import (
+	"sort"
 	"strings"
+	"time"
+
+	clienttypes "github.com/cosmos/ibc-go/v11/modules/core/02-client/types"
+	commitmenttypes "github.com/cosmos/ibc-go/v11/modules/core/23-commitment/types"
+	ibctm "github.com/cosmos/ibc-go/v11/modules/light-clients/07-tendermint"
 
 	. "verif/harness/lib"
 )
 
-func isRaw(f string) bool { return strings.HasPrefix(f, "raw.") || f == "be.height" || f == "calcTP" || f == "parseChainID" || f == "isExpired" }
+// The raw group (C22) drives the exported store API of 07-tendermint (plus the unexported paired
+// write/delete and pruneOldestConsensusState through the verif hooks) on a scratch client store with
+// arbitrary (revision, height) values, including ones whose big-endian bytes contain 0x2F or 0xFF.
 
-// DoRaw: placeholder until the raw-store group exists.
-func (e *Env) DoRaw(in M) { e.emit(in, M{"bad": "raw group not built"}) }
+const rawClient = "07-tendermint-4000000000"
+
+func isRaw(f string) bool {
+	return strings.HasPrefix(f, "raw.") || f == "be.height" || f == "calcTP" || f == "parseChainID" || f == "isExpired"
+}
+
+type rawState struct {
+	cs  *ibctm.ClientState
+	now time.Time
+}
+
+var rawSt rawState
+
+func csFromJSON(m M) *ibctm.ClientState {
+	path := []string{}
+	switch p := m["path"].(type) {
+	case []string:
+		path = p
+	case []any:
+		for _, x := range p {
+			path = append(path, x.(string))
+		}
+	}
+	cs := &ibctm.ClientState{ChainId: fS(m, "chainId"), TrustLevel: ibctm.Fraction{Numerator: fU(m, "tlNum"), Denominator: fU(m, "tlDen")},
+		TrustingPeriod: time.Duration(fI(m, "tp")), UnbondingPeriod: time.Duration(fI(m, "ub")), MaxClockDrift: time.Duration(fI(m, "drift")),
+		FrozenHeight: parseH(fS(m, "frozen")), LatestHeight: parseH(fS(m, "latest")), UpgradePath: path,
+		AllowUpdateAfterExpiry: m["ae"] == true, AllowUpdateAfterMisbehaviour: m["am"] == true}
+	if m["specs"] == "sdk" {
+		cs.ProofSpecs = commitmenttypes.GetSDKSpecs()
+	}
+	return cs
+}
+
+func consFromJSON(m M) *ibctm.ConsensusState {
+	return ibctm.NewConsensusState(time.Unix(0, fI(m, "ts")).UTC(), commitmenttypes.NewMerkleRoot(fB(m, "root")), fB(m, "nvh"))
+}
+
+func optCons(c *ibctm.ConsensusState, ok bool) any {
+	if !ok {
+		return nil
+	}
+	return consStr(c)
+}
+
+func (e *Env) rawFlat() map[string]any {
+	out := map[string]any{}
+	e.FlatStore("", e.Store(rawClient), out)
+	return out
+}
+
+// DoRaw evaluates one raw-store request, emits the case and runs the C22 monitors.
+func (e *Env) DoRaw(req M) any {
+	norm(req)
+	f := fS(req, "f")
+	e.hist = append(e.hist, req)
+	ctx := e.base.WithBlockTime(rawSt.now).WithBlockHeight(1)
+	store := e.K.ClientStore(ctx, rawClient)
+	var out any
+	switch f {
+	case "raw.reset":
+		e.hist = []M{req}
+		it := store.Iterator(nil, nil)
+		var keys [][]byte
+		for ; it.Valid(); it.Next() {
+			keys = append(keys, append([]byte{}, it.Key()...))
+		}
+		it.Close()
+		for _, k := range keys {
+			store.Delete(k)
+		}
+		rawSt.cs = csFromJSON(fM(req, "cs"))
+		rawSt.now = time.Unix(0, fI(req, "now")).UTC()
+		ibctm.VerifSetClientState(store, e.Cdc, rawSt.cs)
+		out = M{"r": "ok"}
+	case "raw.advance":
+		rawSt.now = rawSt.now.Add(time.Duration(fU(req, "dt")))
+		out = M{"r": "ok"}
+	case "raw.insert", "raw.delete", "raw.pruneOldest", "raw.pruneAll":
+		before := e.rawFlat()
+		r := Safe(func() any {
+			switch f {
+			case "raw.insert":
+				h := parseH(fS(req, "h"))
+				ibctm.VerifSetConsensusState(store, e.Cdc, consFromJSON(fM(req, "cons")), h)
+				ibctm.VerifSetConsensusMetadataWithValues(store, h, parseH(fS(req, "ph")), fU(req, "pt"))
+				return "ok"
+			case "raw.delete":
+				h := parseH(fS(req, "h"))
+				ibctm.VerifDeleteConsensusState(store, h)
+				ibctm.VerifDeleteConsensusMetadata(store, h)
+				return "ok"
+			case "raw.pruneOldest":
+				rawSt.cs.VerifPruneOldestConsensusState(ctx, e.Cdc, store)
+				return "ok"
+			default:
+				return "ok:" + I(int64(ibctm.PruneAllExpiredConsensusStates(ctx, store, e.Cdc, rawSt.cs)))
+			}
+		})
+		rs, ok := r.(string)
+		if !ok {
+			rs = "panic"
+		}
+		after := e.rawFlat()
+		out = M{"r": rs, "d": Delta(before, after)}
+		e.rawMonitors(f, req, rs, before, after)
+	case "raw.next":
+		c, ok := ibctm.GetNextConsensusState(store, e.Cdc, parseH(fS(req, "h")))
+		out = M{"ok": optCons(c, ok)}
+		e.neighbourMonitor(req, true, out)
+	case "raw.prev":
+		c, ok := ibctm.GetPreviousConsensusState(store, e.Cdc, parseH(fS(req, "h")))
+		out = M{"ok": optCons(c, ok)}
+		e.neighbourMonitor(req, false, out)
+	case "raw.get":
+		h := parseH(fS(req, "h"))
+		c, ok := ibctm.GetConsensusState(store, e.Cdc, h)
+		res := M{"c": optCons(c, ok), "pt": nil, "ph": nil, "ik": nil}
+		if pt, ok := ibctm.GetProcessedTime(store, h); ok {
+			res["pt"] = U(pt)
+		}
+		if ph, ok := ibctm.GetProcessedHeight(store, h); ok {
+			res["ph"] = hs(ph)
+		}
+		if ik := ibctm.GetIterationKey(store, h); len(ik) > 0 {
+			v := string(ik)
+			if strings.HasPrefix(v, kCons) {
+				res["ik"] = v[len(kCons):]
+			} else {
+				res["ik"] = "raw:" + Hex(ik)
+			}
+		}
+		out = res
+	case "raw.iter":
+		out = M{"asc": AscHeights(store)}
+	case "raw.dump":
+		out = storeJSON(e, store)
+	case "be.height":
+		out = Ok(Hex(ibctm.VerifBigEndianHeightBytes(parseH(fS(req, "h")))))
+	case "calcTP":
+		out = Safe(func() any {
+			return Ok(I(int64(ibctm.VerifCalculateNewTrustingPeriod(time.Duration(fU(req, "tp")), time.Duration(fU(req, "orig")), time.Duration(fU(req, "new"))))))
+		})
+	case "parseChainID":
+		out = func() (o any) {
+			defer func() {
+				if recover() != nil {
+					o = M{"panic": true}
+				}
+			}()
+			return Ok(U(clienttypes.ParseChainID(fS(req, "s"))))
+		}()
+	case "isExpired":
+		cs := ibctm.ClientState{TrustingPeriod: time.Duration(fI(req, "tp"))}
+		out = Ok(cs.IsExpired(time.Unix(0, fI(req, "ts")), time.Unix(0, fI(req, "now"))))
+	default:
+		out = M{"bad": "unknown function " + f}
+	}
+	e.emit(req, out)
+	return out
+}
+
+func sortedHeights(m map[string]string) []hkey {
+	ref := make([]hkey, 0, len(m))
+	for h := range m {
+		k, _ := parseHK(h)
+		ref = append(ref, k)
+	}
+	sort.Slice(ref, func(i, j int) bool { return ref[i].less(ref[j]) })
+	return ref
+}
+
+// neighbourMonitor: GetNext/GetPrevious must return the consensus state of the true neighbour.
+func (e *Env) neighbourMonitor(req M, next bool, out any) {
+	flat := e.rawFlat()
+	if !metaOK(flat) {
+		return // the claim is about consistent stores
+	}
+	c := consOf(flat, "c")[""]
+	x, _ := parseHK(fS(req, "h"))
+	var want any
+	ref := sortedHeights(c)
+	if next {
+		for _, k := range ref {
+			if x.less(k) {
+				want = c[U(k.rev)+"-"+U(k.h)]
+				break
+			}
+		}
+	} else {
+		for i := len(ref) - 1; i >= 0; i-- {
+			if ref[i].less(x) {
+				want = c[U(ref[i].rev)+"-"+U(ref[i].h)]
+				break
+			}
+		}
+	}
+	got := out.(M)["ok"]
+	if got != want {
+		what := "GetPreviousConsensusState did not return the true previous neighbour"
+		if next {
+			what = "GetNextConsensusState did not return the true next neighbour"
+		}
+		e.viol("C22", "neighbour", what, M{"height": fS(req, "h"), "got": got, "want": want})
+	}
+}
+
+func metaOK(flat map[string]any) bool {
+	c, pt, ph, ik := consOf(flat, "c")[""], consOf(flat, "pt")[""], consOf(flat, "ph")[""], consOf(flat, "ik")[""]
+	if len(c) != len(pt) || len(c) != len(ph) || len(c) != len(ik) {
+		return false
+	}
+	for _, v := range ik {
+		if _, ok := c[v]; !ok {
+			return false
+		}
+	}
+	for h := range c {
+		if _, ok := pt[h]; !ok {
+			return false
+		}
+		if _, ok := ph[h]; !ok {
+			return false
+		}
+	}
+	return true
+}
+
+func (e *Env) rawMonitors(f string, req M, r string, before, after map[string]any) {
+	// paired write / paired delete / prune keep the metadata consistent and the iteration ordered
+	if metaOK(before) {
+		e.checkMetaInvRaw(after, f)
+	}
+	if f == "raw.pruneOldest" && metaOK(before) {
+		cb, ca := consOf(before, "c")[""], consOf(after, "c")[""]
+		ref := sortedHeights(cb)
+		removed := []string{}
+		for h := range cb {
+			if _, ok := ca[h]; !ok {
+				removed = append(removed, h)
+			}
+		}
+		if r == "panic" {
+			e.viol("C22", "prune-panic", "pruneOldestConsensusState panicked on a consistent store", nil)
+		}
+		if len(removed) > 1 {
+			e.viol("C22", "prune-many", "pruning during update removed more than one consensus state", M{"removed": removed})
+		}
+		if len(removed) == 1 {
+			k, _ := parseHK(removed[0])
+			if k != ref[0] {
+				e.viol("C22", "prune-not-oldest", "pruning during update removed a state that is not the oldest", M{"removed": removed[0]})
+			}
+			if tsOf(cb[removed[0]])+int64(rawSt.cs.TrustingPeriod) > rawSt.now.UnixNano() {
+				e.viol("C22", "prune-unexpired", "pruning during update removed a state that had not expired", M{"removed": removed[0], "cons": cb[removed[0]]})
+			}
+		}
+		if len(removed) == 0 && len(ref) > 0 {
+			h0 := U(ref[0].rev) + "-" + U(ref[0].h)
+			if tsOf(cb[h0])+int64(rawSt.cs.TrustingPeriod) <= rawSt.now.UnixNano() {
+				// not claimed by the property text ("removes only …"), but part of the model; reported by the diff
+				_ = h0
+			}
+		}
+	}
+}
+
+func (e *Env) checkMetaInvRaw(flat map[string]any, op string) {
+	c, pt, ph, ik := consOf(flat, "c")[""], consOf(flat, "pt")[""], consOf(flat, "ph")[""], consOf(flat, "ik")[""]
+	byHeight := map[string]string{}
+	for key, val := range ik {
+		hk, ok := parseHK(val)
+		if !ok || key != Hex(ibctm.VerifBigEndianHeightBytes(mkH(hk.rev, hk.h))) {
+			e.viol("C22", "iterkey-mismatch", "iteration key does not name the height it is stored under", M{"key": key, "value": val, "op": op})
+		}
+		byHeight[val] = key
+	}
+	all := map[string]bool{}
+	for _, m := range []map[string]string{c, pt, ph, byHeight} {
+		for h := range m {
+			all[h] = true
+		}
+	}
+	for h := range all {
+		_, a := c[h]
+		_, b := pt[h]
+		_, d := ph[h]
+		_, f := byHeight[h]
+		if !(a && b && d && f) {
+			e.viol("C22", "metainv", "consensus state and its three metadata entries are not all present together", M{"height": h, "cons": a, "processedTime": b, "processedHeight": d, "iterationKey": f, "op": op})
+		}
+	}
+	asc := AscHeights(e.Store(rawClient))
+	ref := sortedHeights(c)
+	okOrder := len(asc) == len(ref)
+	for i := 0; okOrder && i < len(ref); i++ {
+		k, _ := parseHK(asc[i])
+		okOrder = k == ref[i]
+	}
+	if !okOrder {
+		e.viol("C22", "iteration-order", "ascending iteration does not visit the stored heights in height order", M{"asc": asc, "op": op})
+	}
+}
+
+// ---- generator ---------------------------------------------------------------------------------
+
+var byteyValues = []uint64{0x2F, 0x2E, 0x30, 0x2F00, 0x2F2F, 0x2F2F2F2F2F2F2F2F, 0x2F00000000000000, 0x002F000000000000,
+	0xFF, 0xFE, 0x100, 0xFF00, 0xFFFF, 0xFFFFFFFFFFFFFFFF, 0xFFFFFFFFFFFFFFFE, 0xFF00000000000000, 0x00FF00FF00FF00FF,
+	0x2FFF, 0xFF2F, 0x2F2E, 0x2F30, 0, 1, 255, 256, 1 << 63, 1<<63 - 1}
+
+func byteyNum(r *Rng) uint64 {
+	switch r.Intn(6) {
+	case 0, 1, 2:
+		return byteyValues[r.Intn(len(byteyValues))]
+	case 3:
+		return byteyValues[r.Intn(len(byteyValues))] + uint64(r.Intn(3)) - 1
+	case 4:
+		return r.Num64()
+	default:
+		return uint64(r.Intn(12))
+	}
+}
+
+func byteyHeight(r *Rng) clienttypes.Height { return mkH(byteyNum(r), byteyNum(r)) }
+
+func GenRaw(e *Env, r0 *Rng, n int) {
+	sim := NewSim("raw", 1)
+	for i := 0; i < n; i++ {
+		r := r0.Fork()
+		tp := time.Duration(1+r.Intn(1000)) * time.Second
+		now := time.Unix(1600000000, int64(r.Intn(1000000000))).UTC()
+		cs := sim.ClientState(tp, 5)
+		e.DoRaw(M{"f": "raw.reset", "cs": CsJSON(cs), "now": I(now.UnixNano()), "self": "1-1"})
+		var pool []clienttypes.Height
+		// revisions are few so that heights share a revision often
+		revs := []uint64{byteyNum(r), byteyNum(r), byteyNum(r)}
+		pick := func() clienttypes.Height {
+			if len(pool) > 0 && r.Chance(0.5) {
+				h := pool[r.Intn(len(pool))]
+				switch r.Intn(4) {
+				case 0:
+					return h
+				case 1:
+					return mkH(h.RevisionNumber, h.RevisionHeight+1)
+				case 2:
+					return mkH(h.RevisionNumber, h.RevisionHeight-1)
+				}
+				return mkH(h.RevisionNumber+1, 0)
+			}
+			if r.Chance(0.7) {
+				return mkH(revs[r.Intn(len(revs))], byteyNum(r))
+			}
+			return byteyHeight(r)
+		}
+		nops := 10 + r.Intn(40)
+		for k := 0; k < nops; k++ {
+			switch c := r.Intn(100); {
+			case c < 40:
+				h := pick()
+				pool = append(pool, h)
+				// timestamps around now - tp so that expiry varies; optionally ordered like heights
+				ts := now.Add(-tp).Add(time.Duration(r.Intn(2000)-1000) * time.Second / 10)
+				cons := ibctm.NewConsensusState(ts, commitmenttypes.NewMerkleRoot(AppHashFor("raw", int64(r.Intn(5)))), sim.Vals.Hash())
+				e.DoRaw(M{"f": "raw.insert", "h": hs(h), "cons": ConsJSON(cons), "ph": hs(byteyHeight(r)), "pt": U(r.Num64())})
+			case c < 48:
+				e.DoRaw(M{"f": "raw.delete", "h": hs(pick())})
+			case c < 60:
+				e.DoRaw(M{"f": "raw.pruneOldest"})
+			case c < 64:
+				e.DoRaw(M{"f": "raw.pruneAll"})
+			case c < 76:
+				e.DoRaw(M{"f": "raw.next", "h": hs(pick())})
+			case c < 88:
+				e.DoRaw(M{"f": "raw.prev", "h": hs(pick())})
+			case c < 92:
+				e.DoRaw(M{"f": "raw.get", "h": hs(pick())})
+			case c < 96:
+				e.DoRaw(M{"f": "raw.iter"})
+			default:
+				e.DoRaw(M{"f": "raw.advance", "dt": U(uint64(time.Duration(r.Intn(200)) * time.Second))})
+			}
+		}
+		e.DoRaw(M{"f": "raw.dump"})
+		// stateless functions
+		e.DoRaw(M{"f": "be.height", "h": hs(byteyHeight(r))})
+		tpv, orig := uint64(1+r.Num64()%(1<<62)), uint64(1+r.Num64()%(1<<62))
+		nw := uint64(1 + r.Num64()%orig)
+		if r.Chance(0.5) {
+			tpv, orig = uint64(1+r.Intn(2000000))*1000000000, uint64(1+r.Intn(3000000))*1000000000
+			nw = uint64(1+r.Intn(int(orig/1000000000))) * 1000000000 // the code calls this only when the unbonding period shrinks
+		}
+		e.DoRaw(M{"f": "calcTP", "tp": U(tpv), "orig": U(orig), "new": U(nw)})
+		e.DoRaw(M{"f": "parseChainID", "s": chainIDString(r)})
+		tsv := int64(r.Intn(1 << 40))
+		tpp := int64(r.Intn(1 << 30))
+		e.DoRaw(M{"f": "isExpired", "tp": I(tpp), "ts": I(tsv), "now": I(tsv + tpp + int64(r.Intn(3)) - 1)})
+	}
+}
+
+func chainIDString(r *Rng) string {
+	switch r.Intn(12) {
+	case 0:
+		return "chain-" + U(r.Num64())
+	case 1:
+		return "chain-0" + U(uint64(r.Intn(100)))
+	case 2:
+		return "chain--" + U(uint64(1+r.Intn(100)))
+	case 3:
+		return "-" + U(uint64(1+r.Intn(100)))
+	case 4:
+		return "a\nb-" + U(uint64(1+r.Intn(100)))
+	case 5:
+		return "ab\n-" + U(uint64(1+r.Intn(100)))
+	case 6:
+		return "chain-1-" + U(uint64(r.Intn(30)))
+	case 7:
+		return Pick(r, []string{"", "-", "chain", "chain-", "chain-1a", "chain-+1", "c-1", "chain-18446744073709551615", "chain-18446744073709551616", "chain-99999999999999999999999", "chain- 1", "chain-1 "})
+	case 8:
+		return r.Str("ab-019\n", r.Intn(8))
+	default:
+		return "sim-" + r.Str("abc-", r.Intn(4)) + "-" + U(uint64(1+r.Intn(999)))
+	}
+}
